@@ -101,6 +101,14 @@ for _c in (10183, 10184, 10185, 10188, 10189, 10271, 10272):
     SCALINGS['Strain:%d' % _c] = sensor_props('Strain:%d' % _c)
 
 
+DAQMX_SCALINGS = {
+    'daqmx-subtract': R.props_for([None, None, {'type': 'Subtract', 'left': 0, 'right': 1}]),
+    'daqmx-subtract-rev': R.props_for([None, None, {'type': 'Subtract', 'left': 1, 'right': 0}]),
+    'daqmx-add': R.props_for([None, None, {'type': 'Add', 'left': 0, 'right': 1}]),
+    'daqmx-linear': R.props_for([None, None, {'type': 'Linear', 'slope': 2.0, 'intercept': 1.0, 'src': 1}]),
+}
+
+
 def dt_of(x):
     if isinstance(x, np.ndarray):
         return x.dtype
@@ -131,23 +139,32 @@ def ops_for(tf, ch, lazy, L):
 
 def check_file(t, sname, L, seed, big=False):
     """-> (n_reads, problems[(kind, op, mode, raw_ts, declared, actual)])"""
-    props = SCALINGS[sname] or []
+    props = SCALINGS.get(sname) or []
     n, chunks = (0, 1) if L == 0 else ((1, 1) if L == 1 else (3, 2))
     if t == 'DAQmx':
-        enc = F.daqmx_enc(n, [(5, 0, 2, 0, 0), (2, 0, 6, 0, 1)], [8])
-        props = props or F.DAQMX_SCALE_PROPS
+        enc = F.daqmx_enc(n, [(2, 0, 2, 0, 0), (2, 0, 6, 0, 1)], [8])   # two unsigned 16-bit scalers
+        props = DAQMX_SCALINGS.get(sname) or F.DAQMX_SCALE_PROPS
         if n == 0:
             return 0, []
     else:
-        enc = ['FULL', 'String', n, 2 * n + 1] if t == 'String' else ['FULL', t, n]
+        tt = 'TimeStamp' if t == 'TimeStampWhole' else t
+        enc = ['FULL', 'String', n, 2 * n + 1] if tt == 'String' else ['FULL', tt, n]
     comp = (B, F.daqmx_enc(n, [(3, 0, 0, 0, 0)], [8])) if t == 'DAQmx' else (B, ['FULL', 'Int8', 1])
     hist = [G.seg([(A, enc, props), comp], chunks=chunks, big=big)]
-    data = G.encode(hist, seed=seed)[0]
+    if t == 'TimeStampWhole':   # a log with one sample per second: every fraction is zero
+        saved = G.POOLS['TimeStamp']
+        G.POOLS['TimeStamp'] = [G._ts(3600000000 + k, 0) for k in range(7)]
+        try:
+            data = G.encode(hist, seed=seed)[0]
+        finally:
+            G.POOLS['TimeStamp'] = saved
+    else:
+        data = G.encode(hist, seed=seed)[0]
     probs = []
     reads = 0
     for lazy in (False, True):
         for raw_ts in (False, True):
-            if raw_ts and t != 'TimeStamp':
+            if raw_ts and t not in ('TimeStamp', 'TimeStampWhole'):
                 continue
             r = H.guarded(lambda: (H.TdmsFile.open if lazy else H.TdmsFile.read)(io.BytesIO(data), raw_timestamps=raw_ts))
             if r[0] != 'ok':
@@ -175,7 +192,7 @@ def check_file(t, sname, L, seed, big=False):
                         if d is None:
                             probs.append(('not-an-array', name, lazy, raw_ts, str(declared), type(x).__name__))
                             continue
-                        if raw_ts and t == 'TimeStamp':
+                        if raw_ts and t in ('TimeStamp', 'TimeStampWhole'):
                             if len(x):
                                 nonempty_dtypes.add(str(d))
                             continue
@@ -192,7 +209,7 @@ def check_file(t, sname, L, seed, big=False):
 def _worker(item):
     t, seed = item
     res = {'counters': {'files': 0, 'reads': 0, 'nontrivial': 0}, 'outcomes': {}, 'violations': [], 'samples': []}
-    snames = list(SCALINGS) if t in NUMERIC else ['none']
+    snames = list(SCALINGS) if t in NUMERIC else (['none'] + list(DAQMX_SCALINGS) if t == 'DAQmx' else ['none'])
     seen = set()
     for sname in snames:
       for big in ((False, True) if sname in ('none', 'Linear', 'AddRawRaw') else (False,)):
@@ -221,7 +238,7 @@ def _worker(item):
 
 def run(ctx):
     from ..run import merge
-    m = merge(ctx.map(_worker, [(t, ctx.seed) for t in G.T17 + ['DAQmx']]))
+    m = merge(ctx.map(_worker, [(t, ctx.seed) for t in G.T17 + ['DAQmx', 'TimeStampWhole']]))
     c = m['counters']
     cov = {'evaluations': c['reads'], 'files': c['files'], 'distinct_nontrivial': c['nontrivial'],
            'rule': 'distinct files = (raw type, scaling, length); non-trivial = has data or a scaling; evaluations = individual reads '
